@@ -102,7 +102,7 @@ def oracle(spec, res, size0):
 
 def run(ctx):
     r = ctx.rng
-    n = ctx.n(70, 1000)
+    n = ctx.n(160, 1200)
     lines, checks = [], []
     with Workdir():
         for si in range(n):
